@@ -25,6 +25,8 @@ func newExec(prog *Program, cs *ContractSet, fn *ssa.Function, con *Contract) *E
 		loops: map[*ssa.Function]map[*ssa.BasicBlock]*LoopInfo{}, counter: map[string]int{}, maxPath: 4000,
 		stack: map[*ssa.Function]int{}, unknown: map[string]int{}, colls: map[string]*CollInfo{}, stSorts: map[string]string{},
 		smtFunSorts: map[string]string{}, usedContracts: map[string]bool{}}
+	declBitFuns(x.c)
+	x.c.constArr("Int", "Bytes", "bempty") // named zarr!Int_Bytes_bempty, used by contract SMT text
 	for _, b := range cs.SMT {
 		x.c.P.axiom(b.Name, b.Triggers, b.Text)
 		for _, m := range defResultRe.FindAllStringSubmatch(b.Text, -1) {
@@ -487,6 +489,18 @@ func (x *Exec) applyContract(s *State, fn *ssa.Function, con *Contract, args []*
 	}
 	res := x.freshResult(s, resT, fn.Name())
 	sig := fn.Signature.Results()
+	if x.con != nil && x.con.Opts["guard"] == fn.Name() && res != nil {
+		// remember the error result of the guarding call: state writes of the caller must come after its success
+		for i := 0; i < sig.Len(); i++ {
+			if isErrorType(sig.At(i).Type()) {
+				if sig.Len() == 1 {
+					s.ghost["guard"] = eq(res.S, "0")
+				} else {
+					s.ghost["guard"] = eq(res.Tup[i].S, "0")
+				}
+			}
+		}
+	}
 	nonErr := 0
 	for i := 0; i < sig.Len(); i++ {
 		var rv *Val
